@@ -148,6 +148,16 @@ CLAIMED = {
         note='trusted: Coq kernel + vm_compute; hand-written model of the traced/retried wrappers validated on generated inputs only; instrumented Tracer subclasses.',
         technique='Coq proof (induction over the attempts sent) + correspondence by vm_compute',
         design='6 C19'),
+    'C15': dict(
+        text='Theorem (Coq, closed): for EVERY registration history - any number of add / add-with-name / add_methods(Method) / add_methods(function) / '
+             'view / merge operations, registries merged into registries to any depth, any prefixes incl. empty ones - and every name n, the '
+             'dict the model builds answers n exactly as the declarative reading does (explicit or own name preceded by the dot-joined non-empty '
+             'prefixes of the registries and view it was added through; the last registration wins; anything else is absent), the registry is a '
+             'dict (one method per name), views contribute exactly their public callables, and an unregistered name is answered -32601 without '
+             'running anything. Correspondence: real registries / dispatchers built from generated histories, probed by dispatching requests.',
+        note='trusted: Coq kernel + vm_compute; hand-written model of MethodRegistry validated on generated histories only; dir() ordering of class members.',
+        technique='Coq proof (strong induction on the nesting of merged registries; dict/last-match lemmas) + correspondence by vm_compute',
+        design='6 C15'),
 }
 
 PENDING_REASON = 'not claimed yet: model, theorems and correspondence for this property are not all in place in this commit (see DESIGN.md section 10)'
